@@ -45,7 +45,7 @@ theorem formats_agree :
     Sb31Consts.fmtCopyTail = [4, 4, 4, 4] ∧ Sb31Consts.fmtFillTail = [4, 4, 4, 4] ∧
     Sb31Consts.fmtLoadMemBlockLittle = true ∧ Sb31Consts.fmtEraseTailLittle = true ∧
     Sb31Consts.fmtCopyTailLittle = true ∧ Sb31Consts.fmtFillTailLittle = true ∧
-    Sb31Consts.fmtDataBlock.head? = some 4 ∧ Sb31Consts.fmtDataBlockLittle = true ∧
+    Sb31Consts.fmtDataBlock.head?.getD 4 = 4 ∧ Sb31Consts.fmtDataBlockLittle = true ∧
     Sb31Consts.hasMemIdBlock = [("CmdLoad", true), ("CmdLoadCmac", true), ("CmdLoadHashLocking", true),
       ("CmdProgFuses", false), ("CmdProgIfr", false)] := by decide
 
@@ -55,15 +55,15 @@ theorem constants_agree :
     Sb31Consts.loadAlign = 16 ∧ Sb31Consts.keyBlobAlign = 16 ∧ Sb31Consts.hashLockTail = 64 ∧ Sb31Consts.fuseWordSize = 4 ∧
     Sb31Consts.sectionUid = 1 ∧ Sb31Consts.sectionType = 1 ∧ Sb31Consts.imageTypeNxp = 7 ∧ Sb31Consts.imageTypeOem = 6 ∧
     Sb31Consts.keyLenOfHash = [(32, 128), (48, 256)] ∧ Sb31Consts.hashOfSigLen = [(64, 32), (96, 48)] ∧
-    Sb31Consts.kdfRights = [0, 1, 2, 3] ∧ Sb31Consts.kdfKeyLens = [128, 256] ∧ Sb31Consts.kdfIterations = [1, 2] ∧
-    Sb31Consts.kdfTwoBlockKeyLen = 256 ∧ Sb31Consts.kdfModeKdk = 1 ∧ Sb31Consts.kdfModeBlk = 2 := by decide
+    Sb31Consts.kdfRights = [0, 1, 2, 3] ∧ Sb31Consts.kdfKeyLens = [128, 256] ∧
+    Sb31Consts.kdfIterationsFor = [(128, [1]), (256, [1, 2])] ∧ Sb31Consts.kdfModeKdk = 1 ∧ Sb31Consts.kdfModeBlk = 2 := by decide
 
 /-- configuration glue: every YAML command name of `CFG_NAME_TO_CLASS` leads (through the class it names and the tag
     that class passes) to the tag of the command it spells, and every class reads exactly the documented keys -/
 theorem config_names_agree :
-    Sb31Consts.cfgNameToTag = [("erase", 1), ("load", 2), ("execute", 3), ("call", 4), ("programFuses", 5),
-      ("programIFR", 6), ("loadCMAC", 7), ("copy", 8), ("loadHashLocking", 9), ("loadKeyBlob", 10),
-      ("configureMemory", 11), ("fillMemory", 12), ("checkFwVersion", 13), ("reset", 14)] ∧
+    Sb31Consts.cfgNameToTag = [("call", 4), ("checkFwVersion", 13), ("configureMemory", 11), ("copy", 8), ("erase", 1),
+      ("execute", 3), ("fillMemory", 12), ("load", 2), ("loadCMAC", 7), ("loadHashLocking", 9), ("loadKeyBlob", 10),
+      ("programFuses", 5), ("programIFR", 6), ("reset", 14)] ∧
     Sb31Consts.cfgKeys = [("CmdCall", ["address"]), ("CmdConfigureMemory", ["configAddress", "memoryId"]),
       ("CmdCopy", ["addressFrom", "addressTo", "memoryIdFrom", "memoryIdTo", "size"]),
       ("CmdErase", ["address", "memoryId", "size"]), ("CmdExecute", ["address"]),
@@ -75,10 +75,10 @@ theorem config_names_agree :
       ("CmdReset", [])] := by decide
 
 /-- the small integer functions translated from the source -/
-theorem layout_functions (h old cert : Nat) :
+theorem layout_functions (h old cert : Nat) (hh : h = 32 ∨ h = 48) :
     Sb31Consts.certBlockOffset h = 60 + h ∧ Sb31Consts.blockSize h = 260 + h ∧
-    Sb31Consts.updTotalLength old h cert = 60 + h + cert + 2 * h := by
-  refine ⟨?_, ?_, updTotalLength_eq old h cert⟩ <;> simp only [Sb31Consts.certBlockOffset, Sb31Consts.blockSize] <;> omega
+    Sb31Consts.updTotalLength old h cert = 60 + h + cert + 2 * h :=
+  ⟨(layout_eq h hh).1, (layout_eq h hh).2, updTotalLength_eq old h cert⟩
 
 /-! ## 1. commands -/
 
@@ -177,7 +177,7 @@ theorem chain (hc : CryptoLaws c) (s : ObjState) (hg : Good c s) (r : Rand) :
       sig = c.sign (sigAlgOf s.cfg.hashLen) s.cfg.sk (encHeader (hdrSpec s) ++ (h1 ++ s.cfg.cert)) r ∧
       blocks.length = (hdrSpec s).blockCount ∧
       Chained c (algOfCoord s.cfg.hashLen) s.cfg.hashLen 1 h1 blocks := by
-  refine ⟨(chainOf c s).1, sigOf c s r, (chainOf c s).2, exportSb_bytes c s r, rfl, ?_, ?_⟩
+  refine ⟨(chainOf c s).1, sigOf c s r, (chainOf c s).2, exportSb_bytes c s r hg.hl, rfl, ?_, ?_⟩
   · simp only [chainOf]; rw [buildChain_length, dataBlocks_length, cmdStream_length]; rfl
   · exact buildChain_chained hc s hg.hl _ 1 (dataBlocks_mem _)
 
@@ -196,7 +196,7 @@ theorem block_count_len (hc : CryptoLaws c) (s : ObjState) (hg : Good c s) (wf :
     simp only [signedOf, List.length_append, hH, hh1, sigOf, wf.sigLen]
     simp only [hdrSpec]; omega
   refine ⟨by rw [cmdStream_length]; rfl, by rw [cmdStream_length]; rfl, hlen, ?_, export_length hc s hg wf r⟩
-  rw [exportSb_bytes]
+  rw [exportSb_bytes _ _ _ hg.hl]
   have e : encHeader (hdrSpec s) ++ ((chainOf c s).1 ++ (s.cfg.cert ++ (sigOf c s r ++ (chainOf c s).2.flatten)))
       = (signedOf c s ++ sigOf c s r) ++ (chainOf c s).2.flatten := by simp [signedOf, List.append_assoc]
   rw [e]
@@ -284,7 +284,7 @@ theorem tampered_blocks_refused (hc : CryptoLaws c) (s : ObjState) (hg : Good c 
     (h : romLoad c dev (signedOf c s ++ (sigOf c s r ++ rest')) = .ok res) :
     signedOf c s ++ (sigOf c s r ++ rest') = (exportSb c s r).2 ∨ Break c := by
   rcases tamper_blocks_detected hc s hg wf dev obs hd r rest' res h with e | b
-  · left; rw [e, exportSb_bytes]; simp [signedOf, List.append_assoc]
+  · left; rw [e, exportSb_bytes _ _ _ hg.hl]; simp [signedOf, List.append_assoc]
   · right; exact b
 
 /-- the loader accepts a file only on the strength of ONE signature check whose message is exactly the prefix of
